@@ -19,7 +19,9 @@ Record ccfg := mkCfg {
   p_selector : selector;            (* the controller's parent selector (Everything if unset) *)
   kids : list child_cfg;
   has_sync : bool; has_finalize : bool;
-  known : list child_cfg            (* discovery: every kind the dynamic client can resolve *)
+  known : list child_cfg;           (* discovery: every kind the dynamic client can resolve *)
+  ssa : bool;                       (* server-side apply instead of dynamic apply *)
+  has_customize : bool
 }.
 
 Definition finalizer_name (c : ccfg) : string := ("metacontroller.io/compositecontroller-" ++ cc_name c)%string.
@@ -301,11 +303,33 @@ Definition child_decision (c : ccfg) (kc : child_cfg) (parent : json)
       ActCreate (set_owner_refs d1 (get_owner_refs d1 ++ [ref]))
   end.
 
+(* server-side apply of one desired child (filled in by Model/SSA section below) *)
+Definition ssa_child (c : ccfg) (kc : child_cfg) (observed : option json) (d : json) : prog bool :=
+  let ns := eff_ns (ch_namespaced kc) (get_ns d) in
+  r1 <~ match observed with
+        | Some old =>
+            match get_annotation old last_applied_annotation with
+            | Some _ =>
+                api (mkRq VPatchJson (ch_res kc) ns (get_name d)
+                       (JArr [JObj [("op", JStr "remove");
+                                    ("path", JStr "/metadata/annotations/metacontroller~0k8s~0io~1last-applied-configuration")]]) "" "")
+            | None => Ret (ROk JNull)
+            end
+        | None => Ret (ROk JNull)
+        end ;;
+  match r1 with
+  | RErr _ => Ret true
+  | ROk _ =>
+      r2 <~ api (mkRq VPatchApply (ch_res kc) ns (get_name d) d "" "") ;;
+      match r2 with ROk _ => Ret false | RErr _ => Ret true end
+  end.
+
 Definition update_children (c : ccfg) (kc : child_cfg) (parent : json)
            (observed desired : list (string * json)) : prog bool :=
   foldM (fun (failed : bool) (p : string * json) =>
            let d := snd p in
            let ns := eff_ns (ch_namespaced kc) (get_ns d) in
+           if ssa c then f <~ ssa_child c kc (olookup (fst p) observed) d ;; Ret (failed || f) else
            match child_decision c kc parent (olookup (fst p) observed) d with
            | ActNone => Ret failed
            | ActError | ActPanic => Ret true
@@ -442,9 +466,13 @@ Definition finish_sync (c : ccfg) (parent : json) (observed : umap) (r : hook_re
       end
   end.
 
+(* customize.GetRelatedObjects: None = error.  Without a customize hook the map is empty. *)
+Definition related_phase (c : ccfg) (k : cache) (parent : json) : prog (option umap) :=
+  Ret (Some []).
+
 (* syncRevisions for controllers without a rolling strategy: one hook call *)
-Definition hook_phase (c : ccfg) (k : cache) (parent : json) (observed : umap) : prog hook_result :=
-  call_hook c parent observed [].
+Definition hook_phase (c : ccfg) (k : cache) (parent : json) (observed related : umap) : prog hook_result :=
+  call_hook c parent observed related.
 
 Definition sync_parent_object (c : ccfg) (k : cache) (parent : json) : prog sync_result :=
   if ignores_parent c parent then Ret SDone else
@@ -457,11 +485,16 @@ Definition sync_parent_object (c : ccfg) (k : cache) (parent : json) : prog sync
       match oc with
       | None => Ret SErr
       | Some observed =>
-          hr <~ hook_phase c k parent observed ;;
-          match hr with
-          | HRNone | HRErr => Ret SErr
-          | HR429 n => Ret (SRequeue n)
-          | HRResp r => finish_sync c parent observed r
+          orel <~ related_phase c k parent ;;
+          match orel with
+          | None => Ret SErr
+          | Some related =>
+              hr <~ hook_phase c k parent observed related ;;
+              match hr with
+              | HRNone | HRErr => Ret SErr
+              | HR429 n => Ret (SRequeue n)
+              | HRResp r => finish_sync c parent observed r
+              end
           end
       end
   end.
